@@ -147,6 +147,45 @@ def lif(c):
     c.canary("canary_impossible", dt0.z < 0)
 
 
+LIN = "inferno/neural/connections/linear.py"
+
+
+@contract(P, "Connection[setters_delegate_to_the_synapse]", [(NB, "Connection.__init__"), (NB, "Connection.synapse"), (NB, "Connection.synapse@setter"), (NB, "Connection.dt"), (NB, "Connection.dt@setter"), (NB, "Connection.batchsz"), (NB, "Connection.batchsz@setter"), (NB, "Connection.delayedby")], tags=("config",))
+def connection_setters(c):
+    """a connection has no configuration of its own: step time, batch size and maximum delay are the synapse's, the
+    setters write through, and replacing the synapse replaces THE registered sub-module (so that the layer, the
+    checkpoint and every later forward see the new one)"""
+    from . import layoutfree as lf
+
+    log = []
+    lf.install(c)
+    dt0, dt1 = c.real("dt0"), c.real("dt1")
+    B0, B1 = c.int("B0"), c.int("B1")
+    md = c.real("max_delay")
+    c.require(dt0 > 0, dt1 > 0, B0 >= 1, B1 >= 1, md > 0)
+    kind = c.choice("connection", ["LinearDense", "LinearDirect", "LinearLateral"])
+    cv = c.interp.classv(repo.load_module(LIN).classes[kind])
+    delayed = c.choice("delayed", [True, False])
+    args = ((4,), (3,), dt0) if kind == "LinearDense" else ((4,), dt0)
+    conn = c.call(cv, *args, synapse=lf.synapse_ctor(c, log), delay=(md if delayed else None), batch_size=B0)
+    syn = c.getattr(conn, "synapse")
+    c.ensure("reports_the_synapse_configuration", z3.And(num(c.getattr(conn, "dt")) == dt0.z, num(c.getattr(conn, "batchsz")) == B0.z, (num(c.getattr(conn, "delayedby")) == md.z) if delayed else z3.BoolVal(c.getattr(conn, "delayedby") is None)))
+    c.setattr(conn, "dt", dt1)
+    c.setattr(conn, "batchsz", B1)
+    c.ensure("setters_write_through_to_the_synapse", z3.And(num(syn.fields["dt"]) == dt1.z, num(syn.fields["batchsz"]) == B1.z))
+    c.ensure("and_report_back", z3.And(num(c.getattr(conn, "dt")) == dt1.z, num(c.getattr(conn, "batchsz")) == B1.z))
+    new = c.call(lf.synapse_ctor(c, log), 4, dt1, md, B1)
+    before = set(conn.fields)
+    c.setattr(conn, "synapse", new)
+    c.ensure("synapse_replaced_in_place", c.getattr(conn, "synapse") is new and conn.fields.get("synapse_") is new)
+    c.ensure("no_stray_attribute_created", set(conn.fields) == before)
+    x = c.pw("x")
+    log.clear()
+    c.call(c.getattr(conn, "forward"), T(x.f, "float", None, None, None))
+    c.ensure("forward_steps_the_new_synapse", len([e for e in log if e[0] == "call"]) == 1 and new.fields["current"] is not None and syn.fields["current"] is not new.fields["current"])
+    c.canary("canary_dt_not_written", num(syn.fields["dt"]) == dt0.z)
+
+
 ASSUMPTIONS = [
     "equality is established on configuration fields (dt, duration, inclusive, constraints, storage sizes) of every registered record/tensor; equal outputs from a cleared state then follow from determinism of the step functions (C03/C04/C07 contracts) and clear() = constructor state (C17/C03/C04)",
     "resizing the batch dimension is modelled by keeping the fixed element position among the surviving elements (values) and updating the element shape; new batch entries are zero (fresh selector)",
@@ -154,6 +193,8 @@ ASSUMPTIONS = [
 ]
 
 MUTANTS = [
+    dict(file=NB, func="Connection.synapse@setter", old="self.synapse_ = value", new="self.synapses = value", contracts=["Connection[setters_delegate_to_the_synapse]"], name="D13 regression"),
+    dict(file=NB, func="Connection.batchsz@setter", old="self.synapse.batchsz = value", new="pass", contracts=["Connection[setters_delegate_to_the_synapse]"]),
     dict(file=NMX, func="DelayedMixin.delay@setter", old="getattr(self, cstr).duration = value", new="getattr(self, cstr).duration = value + self.__step_time", contracts=["DeltaCurrent[setters_vs_constructor]", "SingleExponentialCurrent[setters_vs_constructor]"], name="D11 regression: delay setter oversizes records"),
     dict(file=RB, func="RecordReducer.duration@setter", old="            self.__duration = value", new="            self.__step_time = value", contracts=["PassthroughReducer[setters_vs_constructor]"], name="D12 regression: duration setter overwrites step time"),
     dict(file=NMX, func="DelayedMixin.dt@setter", old="            self.__step_time = value", new="            pass", contracts=["DeltaCurrent[setters_vs_constructor]"]),
